@@ -489,6 +489,10 @@ func (e *Env) index(x, i SVal) SVal {
 	switch u := x.Typ.Underlying().(type) {
 	case *types.Slice:
 		if tb := e.p.tableOfSlice(x.T); tb != nil {
+			if sortOf(u.Elem()) == SSlice {
+				// [][]T table: the row is the slice over the row object of the literal (as for map[K][]T tables)
+				return SVal{T: tb.subSlice(i.T), Typ: u.Elem()}
+			}
 			return SVal{T: tb.valTerm(i.T), Typ: u.Elem()}
 		}
 		if t := e.p.tableElem(x.T, i.T); t != nil {
